@@ -187,6 +187,8 @@ func Walk(node Node, f func(Node) bool) {
 	case *TestDecl:
 		Walk(node.Description, f)
 		Walk(node.Body, f)
+	case *BraceExp:
+		walkList(node.Elems, f)
 	default:
 		panic(fmt.Sprintf("syntax.Walk: unexpected node type %T", node))
 	}
